@@ -1,3 +1,10 @@
 ---- MODULE MC_core ----
 EXTENDS DEngine
+\* initial-cluster constants for the focused configurations
+IV_all == [n \in Node |-> [p \in Node |-> "V"]]
+\* node 1 starts alone (single-node cluster); the others are configured as joining learners
+IV_expand == [n \in Node |-> [p \in Node |-> IF p = 1 THEN "V" ELSE IF p = n THEN "L" ELSE "X"]]
+\* 1..k voters, the highest node a joining learner
+IV_plus1 == LET mx == CHOOSE m \in Node : \A o \in Node : m >= o
+            IN [n \in Node |-> [p \in Node |-> IF p # mx THEN "V" ELSE IF n = mx THEN "L" ELSE "X"]]
 ====
